@@ -83,7 +83,8 @@ def stage_b(ctx, procs):
         rules = to_json(it[2])
         yes = {(a - 1, b - 1) for a, b in it[4]}
         text = K.render(rules)
-        oc, ck, msg = K.build(text)
+        oc, ck, msg, note = K.build2(text)
+        K.recompile_violation(ctx, 'C12', note, text)
         if oc != 'ok':
             nrej += 1
             continue
@@ -192,7 +193,8 @@ def stage_c(ctx, procs):
         if not any(r['sign'] for r in rules):
             continue
         text = K.render(rules)
-        oc, ck, msg = K.build(text)
+        oc, ck, msg, note = K.build2(text)
+        K.recompile_violation(ctx, 'C12', note, text)
         if oc != 'ok':
             rejected += 1
             continue
@@ -217,7 +219,11 @@ def replay(ctx, path):
         obj = json.load(f)
     text = obj.get('text') or K.render(obj['rules'])
     print(text)
-    oc, ck, msg = K.build(text)
+    if obj.get('kind') == 'recompile':
+        return c11.replay(ctx, path)
+    oc, ck, msg, note = K.build2(text)          # as recorded: the checker of the second compilation
+    if note:
+        print('recompilation:', note)
     if oc != 'ok':
         print('build failed', oc, msg)
         return 1
